@@ -46,6 +46,27 @@ T={
 "C20":("Every reachable seed state (all-functions alphabet) x ~9.6k (quick) / ~100k (thorough) inert inputs enumerated exhaustively by class: no changed lines, identical lines()/cursor/dump, following char handled from ground, hidden state identical; bare Parser dispatches nothing and ends in Ground, also for all 785 700 control strings with payloads of up to 4 class-representative characters.",
        "Seeds in parser ground state; payload alphabet = class representatives.", "explicit-state BFS seeds x exhaustive inert-input enumeration, before/after differential oracle"),
 }
+EXTRA={
+"C01":" The extreme layer also holds complete colour forms with components at and beyond 255/65535; the watchdog names the call in progress.",
+"C02":" Plus in-band window-manipulation sequences (size() must stay what the API was told) and geometries at and beyond 65535/65536 through resize() and the builder.",
+"C04":" Plus a 12x8 screen filled with distinct letters: depth-2 BFS over (region x origin mode x cursor cell) and every REP count / text length; plus every implemented mode alone and inside lists with unimplemented numbers (mode-list-shapes).",
+"C05":" Plus a 12x8 sweep: every movement function with every parameter value 0..14, CUP to every cell, from every (region x origin mode x cursor cell) placement, and HT/CHT/CBT over every single and every pair of hand-set stops; plus mode-list-shapes.",
+"C06":" Plus new-line mode, and a 12x8 sweep: SU/SD/IL/DL with every count, every DECSTBM pair, from every placement.",
+"C07":" Plus every mode away from its default (cursor visibility and mode flags compared after every step) and a 12x8 sweep: ICH/DCH/ECH with every count and every ED/EL selector from every cell.",
+"C08":" Plus every representative parameter (and pairs) directly after 18 inputs that collect parameters but dispatch nothing (cancelled, ignored, unfinished sequences, control strings).",
+"C09":" Plus every printable Unicode scalar inside a wrapped line and every line count up to 1400 (thorough 5000 and beyond).",
+"C10":" Plus the same oracle from states with scroll regions, origin mode, hidden cursor, auto-wrap off and the other modes set (3x3, every single resize).",
+"C12":" Plus every Unicode scalar placed in 8 parser contexts and fed whole, cut before/after/around it, per character and via feed().",
+"C13":" Plus every order and repetition of the Builder calls (limit given before the size, second terminal from one builder).",
+"C14":" Plus, for each limit, every count 0..4200 (thorough 9000) of lines scrolled by a single call.",
+"C15":" Plus screens of 5..130 rows (thorough every height up to 136, around 192 and 256) from a screen whose neighbouring rows differ: every single-row function at every row and every region function for the region bounds.",
+"C16":" The screen that should be showing is derived from the commands (a requested switch that does not happen, or an unrequested one, is reported); near-miss spellings of the switching sequences and mode lists with unimplemented numbers are part of the alphabet; plus mode-list-shapes.",
+"C17":" Plus mode-list-shapes: 1048/1049 inside lists with unimplemented numbers and paired with other modes.",
+"C19":" Plus the parser side: every string of <= 3 (thorough 4) parameter/sub-parameter/marker/intermediate/final bytes after each introducer, then ESC c, then 96 continuations, compared with a fresh terminal.",
+"C20":" Plus shapes-and-counts: every final after parameter bytes or markers that follow an intermediate, every parameter count 0..70 in CSI and DCS headers, every payload length up to 1100 (thorough 4200).",
+}
+for k,v in EXTRA.items():
+    t,n,tech=T[k]; T[k]=(t+v,n,tech)
 claimed=sorted(T)
 checks=[]
 for p in props:
